@@ -33,7 +33,7 @@ def cases(tier, seed, rng):
     r = 2 if tier == 'quick' else 3
     IMIN, IMAX = -2147483648, 2147483647
     cube = [(L[0] + i, L[1] + j, L[2] + k) for i in range(-r, r + 1) for j in range(-r, r + 1) for k in range(-r, r + 1)]
-    ext = [IMIN, -1, 0, IMAX]
+    ext = [IMIN, -1, 0, 100, 250, 10000, IMAX]
     extremes = [(a, b, c) for a in ext + [L[0]] for b in ext + [L[1]] for c in ext + [L[2]]]
     out = [Case(['probe_version'])]
     # gate: every triple x mode x force  (file operations: ~1.5 ms each)
@@ -44,6 +44,10 @@ def cases(tier, seed, rng):
                 if mode == 'ow' and (force == 1 or v not in cube[::9]):
                     continue
                 out.append(Case(['vgate [%d,%d,%d] = = %s %d' % (v[0], v[1], v[2], mode, force)]))
+    # files without an id attribute: required from the id-gate version on
+    for v in cube + [(L[0], L[1] - 1, 100), (L[0], L[1] - 1, 250), (L[0], 0, 0)]:
+        for force in (0, 1):
+            out.append(Case(['vgate [%d,%d,%d] = ~ ro %d' % (v[0], v[1], v[2], force)]))
     # operators on all pairs of the cube (+ extremes against the cube's corners)
     pool = cube if tier == 'thorough' else [(L[0] + i, L[1] + j, L[2] + k) for i in (-1, 0, 1) for j in (-1, 0, 1) for k in (-1, 0, 1)]
     pairs = [(a, b) for a in pool for b in pool]
@@ -56,3 +60,10 @@ def cases(tier, seed, rng):
 
 def nontrivial(case, tags):
     return True
+
+LEVEL_TEXT = ('Lean 4 theorems (all version triples over Int, all modes): read gate iff same major and minor not newer, write gate iff '
+              'identical, Force bypasses, strict total lexicographic order consistent with equality; the model is tied to the code by '
+              'exhaustive correspondence over a cube of triples written into real files plus int extremes, and the library version is '
+              're-extracted from the source on every run.')
+LEVEL_NOTE = ('Trusted: Lean kernel (axioms propext/Classical.choice/Quot.sound), the hand-written model of FormatVersion/checkHeader '
+              '(validated exhaustively on the cube each run), table extractor, harness, HDF5 attribute I/O.')
